@@ -78,7 +78,14 @@ pub enum Val {
 #[derive(Clone, Debug, PartialEq)]
 pub enum Op {
     Timestamp(SystemTime),
-    Config { type_id: TypeId, debug: String },
+    Config {
+        type_id: TypeId,
+        debug: String,
+        /// Some(sets) when the config is an `EntryDimensions`
+        entry_dims: Option<Vec<Vec<String>>>,
+        allow_split: bool,
+        allow_unroutable: bool,
+    },
     Value { name: String, val: Val },
 }
 
@@ -176,9 +183,16 @@ impl<'a> EntryWriter<'a> for RecordingWriter {
     }
 
     fn config(&mut self, config: &'a dyn EntryConfig) {
+        use metrique_writer_core::config::{AllowSplitEntries, AllowUnroutableEntries, EntryDimensions};
+        let any = config as &dyn Any;
         self.log.push(Op::Config {
-            type_id: (config as &dyn Any).type_id(),
+            type_id: any.type_id(),
             debug: format!("{config:?}"),
+            entry_dims: any
+                .downcast_ref::<EntryDimensions>()
+                .map(|d| d.dim_sets().map(|s| s.map(|x| x.to_string()).collect()).collect()),
+            allow_split: any.downcast_ref::<AllowSplitEntries>().is_some(),
+            allow_unroutable: any.downcast_ref::<AllowUnroutableEntries>().is_some(),
         });
     }
 }
